@@ -1,21 +1,28 @@
 """./check --setup : build every executor for both back-ends, offline, from files on disk only."""
 import sys, time
+from concurrent.futures import ThreadPoolExecutor
 import framework as fw
 
 ALL_BINS = ["x_core", "x_derived", "x_rate", "x_conv", "x_names", "x_si", "x_serde"]
 
 
-def main():
+def _one(b):
     t0 = time.time()
+    try:
+        fw.build_bins(b, ALL_BINS)
+        fw.build_bins(b, ["x_core", "x_derived"], nostd=True)
+        fw.build_bins(b, ["x_core", "x_rate"], nostd=True)
+        fw.build_bins(b, ["x_core", "x_derived", "x_rate", "x_conv"], "release")      # C18 and the release lane of C10
+        return "built executors for %s (%.1fs)" % (b, time.time() - t0), 0
+    except (fw.Inconclusive, fw.BuildViolation) as e:
+        return "setup: building executors for %s failed: %s" % (b, e), 1
+
+
+def main():
+    # the two back-ends use separate cargo target directories, so they build side by side
     rc = 0
-    for b in ("f64", "dec"):
-        try:
-            fw.build_bins(b, ALL_BINS)
-            fw.build_bins(b, ["x_core", "x_derived"], nostd=True)
-            fw.build_bins(b, ["x_core", "x_rate"], nostd=True)
-            fw.build_bins(b, ["x_core", "x_derived", "x_rate", "x_conv"], "release")      # C18 and the release lane of C10
-            print("built executors for %s (%.1fs)" % (b, time.time() - t0))
-        except (fw.Inconclusive, fw.BuildViolation) as e:
-            print("setup: building executors for %s failed: %s" % (b, e))
-            rc = 1
+    with ThreadPoolExecutor(2) as ex:
+        for msg, r in ex.map(_one, ("f64", "dec")):
+            print(msg)
+            rc |= r
     return rc
